@@ -188,7 +188,7 @@ var (
 		{Form: "prod", Kinds: []reflect.Kind{reflect.Int, reflect.Int}},
 	}
 	kindTable  = []reflect.Kind{reflect.Int, reflect.String, reflect.Struct, reflect.Ptr, reflect.Float64, reflect.Slice, reflect.Bool, reflect.Map}
-	equalTable = []interface{}{42, "ccc", nil, S{1}, ptrS, "world", 3.5, true, 0.0}
+	equalTable = []interface{}{42, "ccc", nil, S{1}, ptrS, "world", 3.5, true, 0.0, (*S)(nil)}
 	regexTable = []string{"c+", "^w", "^$", "T$", ".*"}
 
 	patternKinds = []string{"Kind", "Equal", "Regex", "SumType", "Otherwise"}
@@ -655,7 +655,7 @@ func paramConfigs() [][4]int {
 	// patterns accept the same probe (e.g. Kind(String)+Equal("ccc")+Regex(c+))
 	return [][4]int{
 		{0, 0, 0, 0}, {1, 1, 0, 5}, {2, 3, 1, 2}, {3, 4, 2, 3}, {4, 6, 3, 7}, {5, 2, 4, 4}, {6, 7, 4, 6},
-		{1, 5, 1, 8}, {0, 2, 2, 1}, {3, 3, 3, 9}, {2, 4, 0, 0}, {1, 0, 4, 5}, {7, 2, 0, 4}, {5, 2, 1, 0}, {4, 8, 3, 7},
+		{1, 5, 1, 8}, {0, 2, 2, 1}, {3, 3, 3, 9}, {2, 4, 0, 0}, {1, 0, 4, 5}, {7, 2, 0, 4}, {5, 2, 1, 0}, {4, 8, 3, 7}, {3, 9, 2, 3}, {0, 9, 4, 4},
 	}
 }
 
